@@ -914,8 +914,15 @@ func (w *c05World) buildBatch(p *c05Prop) (*order.Batch, string, bool, error) {
 			OutpointIndex: -1,
 			NewVersion:    acct.Version,
 		}
-		if p.up == k && acct.Version == account.VersionInitialNoVersion {
-			diff.NewVersion = account.VersionTaprootEnabled
+		if p.up == k && acct.Version < account.VersionMuSig2V100RC2 {
+			// the auctioneer upgrades the account by one version in this
+			// batch: p2wsh -> taproot (MuSig2 v0.4), taproot v0.4 -> v1.0rc2
+			diff.NewVersion = acct.Version + 1
+			r := w.r
+			r.Count(fmt.Sprintf("prop/upgrade-v%d-to-v%d", acct.Version, diff.NewVersion))
+			if p.ext == k {
+				r.Count("prop/upgrade-with-expiry-change")
+			}
 		}
 		if p.ext == k {
 			// the auctioneer extends the account (a lease outliving it)
@@ -2130,12 +2137,15 @@ func c05Gen(r *Run) *c05Case {
 				node = 1 // node 1 is acceptable to every order
 			}
 			up := 0
-			if r.Rng.Intn(4) == 0 {
+			if r.Rng.Intn(3) == 0 {
 				up = accts[r.Rng.Intn(len(accts))]
 			}
 			ext := 0
 			if r.Rng.Intn(3) == 0 {
 				ext = accts[r.Rng.Intn(len(accts))]
+				if up != 0 && r.Rng.Intn(2) == 0 {
+					ext = up // upgrade and expiry change on the same account
+				}
 			}
 			extd := 1000
 			if r.Rng.Intn(3) == 0 {
